@@ -17,7 +17,7 @@ import coqemit as E
 
 ID = "C04"
 PROPS = "Props/C04.v"
-IMPORTS = ("From PV Require Import Lib.Common Model.C04_Gmod Model.C04_GS.\n"
+IMPORTS = ("From PV Require Import Lib.Common Model.C04_Gmod Model.C04_GS Gen.C04_Kernel.\n"
            "Import String.StringSyntax. Delimit Scope string_scope with string.")
 SHARD = 12
 SHARD_TIMEOUT = 600
@@ -905,6 +905,10 @@ def _emit_fit(case, out):
         if beta is None or ridge is None or any(v is None for v in u): return "false"
         y = E.lst([case["Y"][i][k] for i in range(n)], _q)
         parts.append("rr_clauses %d%%nat Zg %s %s %s %s %s true" % (p, y, E.q(ridge), _q(GS_ATOL), E.q(beta), E.lst(u, E.q)))
+        # the ridge parameter handed to the clauses is the source's own expression (generated kernel) of the variance components
+        vE, vU = _fr(out["comps"][k]["varE"]), _fr(out["comps"][k]["varU"])
+        if vE is None or vU is None or vU == 0: return "false"
+        parts.append("Qclose %s (k_ridge %s %s)" % (E.q(ridge), E.q(vE), E.q(vU)))
         mask, Zp, pp, mu, yc, rdg, A, b = _fit_parts(case, out, k)
         x, sweeps = _gs_exact(A, b, F(GS_ATOL), GS_MAXITER, cap=RERUN_CAP)
         if x is not None:
@@ -1069,3 +1073,10 @@ def shrink(case, fails):
                 c = copy.deepcopy(cur); c["Z"] = c["Z"][:i] + c["Z"][i + 1:]; c["Y"] = c["Y"][:i] + c["Y"][i + 1:]
                 if attempt(c): changed = True; break
     return cur
+
+
+def translate(repo, gen_dir):
+    """regenerate Gen/C04_Kernel.v (kernel expressions of the allele tables, the dominance design, the predictions, the variance /
+    Bulmer / score formulas, gauss_seidel and the non-numerical parts of rrBLUPModel0.fit_numpy) from the current source; fail closed"""
+    from translate import c04_kernel
+    return [c04_kernel.translate(repo, gen_dir)]
